@@ -52,7 +52,7 @@ func errClass(err error) string {
 func main() {
 	r := rep.Open()
 	defer r.Close()
-	r.Rule = "sequences of 1..7 frames drawn from {valid of each of the 27 kinds, oversize by k in 1..40 or 2*msize, unknown type byte, body cut short by 1..8 bytes, size field 0..3, final frame cut at a random offset} x msize in {64..9000} x chunking {whole, single bytes, frame-aligned, random}. Non-trivial: every sequence; distinct by canonical text."
+	r.Rule = "sequences of 1..7 frames drawn from {valid of each of the 27 kinds, oversize by k in 1..40 or 2*msize, unknown type byte, body cut short by 1..8 bytes, runt bodies of 0..2 bytes, size field 0..3, final frame cut at a random offset} x msize in {64..9000} x chunking {whole, single bytes, frame-aligned, random}. Non-trivial: every sequence; distinct by canonical text."
 	rng := prng.New(r.Seed)
 	n := r.N(1500, 40000)
 	for i := 0; i < n; i++ {
@@ -124,7 +124,17 @@ func sequence(r *rep.Report, rng *prng.R) {
 			stream = append(stream, frameOf(b)...)
 			exp = append(exp, expect{kind: "error", what: "unknown type byte"})
 		case kind == 8: // body shorter than the message needs
-			if len(body) > 3 && len(body)+4 <= msize {
+			if rng.Intn(3) == 0 {
+				// a runt: a well-framed body too short even for type[1] tag[2] (size field 4, 5 or 6); it is
+				// consumed in full, reported as an error, and the frames after it are still delivered
+				n := rng.Intn(3)
+				b := append([]byte{}, body...)
+				if rng.Intn(2) == 0 {
+					b = rng.Bytes(3)
+				}
+				stream = append(stream, frameOf(b[:n])...)
+				exp = append(exp, expect{kind: "error", what: fmt.Sprintf("runt frame, body of %d bytes", n)})
+			} else if len(body) > 3 && len(body)+4 <= msize {
 				cut := rng.Range(1, 8)
 				if cut > len(body)-3 {
 					cut = len(body) - 3
